@@ -209,6 +209,16 @@ func RunCase(line string) (impl, fail, sig string, err error) {
 		impl = runImpl(p)
 		_, fail, sig, _ = verdict(p, impl)
 		return impl, fail, sig, nil
+	case "subridx":
+		if len(items) != 3 {
+			return "", "", "", errors.New("subridx case: want 3 items")
+		}
+		k, _ := vlib.AsAtom(items[1])
+		e, err := vlib.AsInt(items[2])
+		if err != nil {
+			return "", "", "", err
+		}
+		return subrIdxCase(k, e)
 	case "cidpriv":
 		if len(items) != 6 {
 			return "", "", "", errors.New("cidpriv case: want 6 items")
@@ -411,6 +421,7 @@ func Gen(run *vlib.Run, seed uint64, tier string) {
 	r := vlib.NewRand(seed)
 	genPrivw(run)
 	genCidPriv(run)
+	genSubrIdx(run)
 	plain := &gcfg{arith: 0, frac: 15}
 	arith := &gcfg{arith: 18, frac: 15}
 	heavy := &gcfg{arith: 60, frac: 30}
